@@ -16,6 +16,27 @@ HEAD = "/- INSTANTIATED by bin/mkc12gen.py (one proof template for all packages)
 CLS = "{G Fp : Type} [Add G] [Sub G] [Neg G] [Zero G] [SMul Int G] [Add Fp] [Sub Fp] [Mul Fp] [Inv Fp] [Zero Fp] [BEq Fp]"
 
 
+PROOF = """  subst hh hL hR
+  simp only [{ns}.PublicKey_Verify_hash]
+  by_cases c1 : isOnCurve A = true
+  case neg => simp [c1]
+  by_cases c2 : perr sig = Res.ok
+  case neg => simp [c1, c2]
+  by_cases c3 : wok (fpBytes (affX (pR sig))) = true
+  case neg => simp [c1, c2, c3]
+  by_cases c4 : wok (fpBytes (affY (pR sig))) = true
+  case neg => simp [c1, c2, c3, c4]
+  by_cases c5 : wok (fpBytes (affX A)) = true
+  case neg => simp [c1, c2, c3, c4, c5]
+  by_cases c6 : wok (fpBytes (affY A)) = true
+  case neg => simp [c1, c2, c3, c4, c5, c6]
+  by_cases c7 : wok msg = true
+  case neg => simp [c1, c2, c3, c4, c5, c6, c7]
+  simp only [c1, c2, c3, c4, c5, c6, c7, Bool.not_true, Bool.false_eq_true, if_false, bne_self_eq_false, true_and]
+  split_ifs <;> simp_all <;> (rename_i h; intro ha; rcases h with h | h <;> simp_all)
+"""
+
+
 def ecdsa_file(c):
     ns = f"ecdsa_{c}"
     P = f"SigParams.ec_{c}"
@@ -96,18 +117,62 @@ end GV.C12gen
     return names
 
 
+EDDSA = ["bn254", "bls12_377", "bls12_381", "bandersnatch", "bls24_315", "bls24_317", "bw6_633", "bw6_761"]
+
+
+def eddsa_file(c):
+    ns = f"eddsa_{c}"
+    names = [f"C12gen_{c}_eddsa_verify_abstract", f"C12gen_{c}_eddsa_verify_nohash"]
+    body = HEAD + f"""import GnarkVerif.Gen.Verifier.Eddsa_{c}
+import Mathlib.Tactic.SplitIfs
+/-
+C12, tie T for the EdDSA verifier of package eddsa_{c}: `(*PublicKey).Verify` as REGENERATED from the Go text (Gen/Verifier/Eddsa_{c}.lean).
+`Signature.SetBytes` is NOT looked into here (parameters sigParseErr / sigParseR / sigParseS of the signature bytes: the length check,
+the range checks of R and S, the decompression of R and its on-curve test stay hand model + K); the curve parameters are the parameters
+edBase, edCofactor (twistededwards.GetEdwardsCurve()); the hash object is hashWriteOk / hashSum as for ECDSA.
+`_verify_abstract`: over ANY types the Go text returns (true, nil) exactly when A is on the curve, the signature parses, the five Writes
+(R.X, R.Y, A.X, A.Y, message) succeed, [c]([S]B) and [c]([h]A + R) are on the curve and have equal X AND equal Y coordinates
+(c = cofactor, h = the digest as a big-endian integer; S is NOT reduced modulo the order here).
+-/
+set_option linter.unusedVariables false
+open GV GV.Gen.Verifier
+namespace GV.C12gen
+
+theorem C12gen_{c}_eddsa_verify_abstract {CLS}
+    (edA edD edCofactor : Fp) (edOrder : Int) (edBase : G) (isOnCurve : G → Bool) (perr : List UInt8 → Res) (pR : List UInt8 → G)
+    (pS : List UInt8 → List UInt8) (affX : G → Fp) (fpBytes : Fp → List UInt8) (affY : G → Fp) (wok : List UInt8 → Bool)
+    (hsum : List (List UInt8) → List UInt8) (fpToInt : Fp → Int) (A : G) (sig msg : List UInt8)
+    (h : Int) (hh : h = Int.ofNat (beToNat (hsum [fpBytes (affX (pR sig)), fpBytes (affY (pR sig)), fpBytes (affX A), fpBytes (affY A), msg])))
+    (L R : G) (hL : L = fpToInt edCofactor • (Int.ofNat (beToNat (pS sig)) • edBase)) (hR : R = fpToInt edCofactor • (h • A + pR sig)) :
+    {ns}.PublicKey_Verify_hash edA edD edCofactor edOrder edBase isOnCurve perr pR pS affX fpBytes affY wok hsum fpToInt A sig msg = (true, Res.ok) ↔
+      (isOnCurve A = true ∧ perr sig = Res.ok ∧ wok (fpBytes (affX (pR sig))) = true ∧ wok (fpBytes (affY (pR sig))) = true ∧
+       wok (fpBytes (affX A)) = true ∧ wok (fpBytes (affY A)) = true ∧ wok msg = true ∧
+       isOnCurve L = true ∧ isOnCurve R = true ∧ (affX L == affX R) = true ∧ (affY L == affY R) = true) := by
+PROOF
+/-- without a hash object the verifier refuses before anything else -/
+theorem C12gen_{c}_eddsa_verify_nohash {CLS} (A : G) (sig msg : List UInt8) :
+    {ns}.PublicKey_Verify_nohash (Fp := Fp) A sig msg = (false, Res.err "errHashNeeded") := rfl
+
+end GV.C12gen
+""".replace("PROOF", PROOF.replace("{ns}", ns))
+    open(os.path.join(PROPS, f"C12_gen_eddsa_{c}.lean"), "w").write(body)
+    return names
+
+
 def main():
     names = []
     for c in ECDSA:
         names += ecdsa_file(c)
+    for c in EDDSA:
+        names += eddsa_file(c)
     open(os.path.join(PROPS, "C12_gen.lean"), "w").write(
-        HEAD + "".join(f"import GnarkVerif.Props.C12_gen_{c}\n" for c in ECDSA) +
+        HEAD + "".join(f"import GnarkVerif.Props.C12_gen_{c}\n" for c in ECDSA) + "".join(f"import GnarkVerif.Props.C12_gen_eddsa_{c}\n" for c in EDDSA) +
         "/-\nC12 tie T (signature verifiers): see Props/C12_gen_<curve>.lean and Proofs/SigGen.lean. This root module only collects the instances.\n-/\n")
     open(os.path.join(AUDIT, "C12_gen.lean"), "w").write(
         "import GnarkVerif.Props.C12_gen\nopen GV.C12gen GV.SigGen\n" +
         "".join(f"#print axioms {n}\n" for n in
                 ["sigSetBytesT_spec", "ecdsaVerifyHashT_model", "ecdsaVerifyNoHashT_model", "ecdsaVerifyNoHashT_abstract"] + names))
-    print(f"C12_gen: {len(names)} theorems in {len(ECDSA)} files")
+    print(f"C12_gen: {len(names)} theorems in {len(ECDSA) + len(EDDSA)} files")
 
 
 if __name__ == "__main__":
